@@ -88,3 +88,11 @@ Example C03_ex_dialects :
   (look_for_number "007", look_for_number "12", look_for_number "0", native_str "0", native_str "00", native_str "010")
   = (Ok (VStr "007"), Ok (VInt 12), Ok (VStr "0"), Ok (VInt 0), Ok (VInt 0), Ok (VStr "010")).
 Proof. vm_compute. reflexivity. Qed.
+
+(* dialect 3 on texts that are not plain words or digit strings (Jinja native_concat) *)
+Example C03_ex_dialect3_texts :
+  (native_str "-3", native_str "- 3 ", native_str "1_0", native_str "k-3", native_str " 5",
+   native_str "5 ", native_str "None", native_str "a b", native_str "--3", native_str "1e5")
+  = (Ok (VInt (-3)), Ok (VInt (-3)), Ok (VInt 10), Ok (VStr "k-3"), Ok (VStr " 5"),
+     Ok (VInt 5), Ok VNull, Ok (VStr "a b"), Ok (VStr "--3"), Err Unsupported).
+Proof. vm_compute. reflexivity. Qed.
